@@ -182,6 +182,103 @@ def reverse_rules(ctx, r6):
              ctx.loc(st))
 
 
+def reverse_graph(ctx, rule):
+    """The dependency graph of a reverse workflow has one node per task and
+    an edge dependency -> task for every name in the task's requires
+    (task-defaults merged); the target is the task named in the execution
+    parameters and an unknown name is refused."""
+    prog = ctx.prog
+    bg = prog.func(RWC + '._build_graph')
+    P = bg.params[1]
+    cfg = ctx.cfg(bg)
+    nodes = [(n, c) for n, c in cfg.calls(
+        lambda c: U.call_name(c) == 'add_node')]
+    edges = [(n, c) for n, c in cfg.calls(
+        lambda c: U.call_name(c) == 'add_edge')]
+    ok = len(nodes) == 1 and len(edges) == 1
+    if ok:
+        loops = [x for x in own_nodes(bg.node) if isinstance(x, ast.For)]
+        ln = [lp for lp in loops if any(c is nodes[0][1]
+                                        for c in ast.walk(lp))]
+        le = [lp for lp in loops if any(c is edges[0][1]
+                                        for b in lp.body for c in ast.walk(b))]
+        ok = bool(ln) and norm(ln[0].iter) == P and \
+            [norm(a) for a in nodes[0][1].args] == [norm(ln[0].target)]
+        outer = [lp for lp in le if norm(lp.iter) == P]
+        inner = [lp for lp in le if U.phas(
+            lp.iter, 'self._get_dependency_tasks(%s, __t)' % P)]
+        ok = ok and len(outer) == 1 and len(inner) == 1 and \
+            U.phas(inner[0].iter, 'self._get_dependency_tasks(%s, %s)'
+                   % (P, norm(outer[0].target))) and \
+            [norm(a) for a in edges[0][1].args] == [
+                norm(inner[0].target), norm(outer[0].target)] and \
+            not [x for lp in loops for b in lp.body for x in ast.walk(b)
+                 if isinstance(x, (ast.Break, ast.Continue, ast.If))]
+        rets = [x for x in own_nodes(bg.node) if isinstance(x, ast.Return)]
+        ok = ok and all(norm(r_.value) == norm(edges[0][1].func.value)
+                        for r_ in rets) and bool(rets)
+    rule.check(ok, ctx.construct(bg, extra='edge dependency -> task for '
+                                 'every requires entry'),
+               'the dependency graph does not contain every task and an '
+               'edge from each required task to the task that requires it '
+               '(a reversed or missing edge starts tasks before their '
+               'prerequisites / runs tasks the target does not depend on)',
+               ctx.loc(bg))
+    gd = prog.func(RWC + '._get_dependency_tasks')
+    dcfg = ctx.cfg(gd)
+    adds = [(n, c) for n, c in dcfg.calls(lambda c: U.call_name(c) == 'add')]
+    okd = len(adds) == 1
+    if okd:
+        names = [k for k, v in U._single_defs(gd.node).items()
+                 if U.phas(v, 'self.wf_spec.get_task_requires(%s)'
+                           % gd.params[2]) and isinstance(v, ast.Call)]
+        okd = len(names) == 1
+        if okd:
+            from mstatic.pattern import match
+            facts = [(a, t) for a, t in U.guard_atoms(dcfg, adds[0][0])
+                     if not (U.names_in(a) <= {names[0], 'len'})]
+            eq = [a for a, t in facts if t and isinstance(a, ast.Compare) and
+                  isinstance(a.ops[0], (ast.Eq, ast.In))]
+            nm = names[0]
+            own = [(norm(a), t) for a, t in U.guard_atoms(dcfg, adds[0][0])
+                   if U.names_in(a) <= {nm, 'len'}]
+            okd = all(x in (('len(%s) == 0' % nm, False), (nm, True),
+                            ('0 < len(%s)' % nm, True)) for x in own)
+            okd = okd and len(facts) == 1 and len(eq) == 1 and \
+                'get_name()' in norm(eq[0]) and \
+                norm(adds[0][1].args[0]) in norm(eq[0])
+            rets = [x for x in own_nodes(gd.node)
+                    if isinstance(x, ast.Return)]
+            okd = okd and any(norm(r_.value) == norm(adds[0][1].func.value)
+                              for r_ in rets)
+    rule.check(okd, ctx.construct(gd, extra='specs named in requires'),
+               'the dependencies of a task are not exactly the task specs '
+               'whose name is listed in its (task-defaults merged) '
+               'requires', ctx.loc(gd))
+    tg = prog.func(RWC + '._get_target_task_specification')
+    from mstatic.rules import dt
+    defs = U._single_defs(tg.node)
+    sp = [k for k, v in defs.items() if U.phas(v, 'self.wf_spec.get_tasks()')
+          and 'get(' in norm(v)]
+    okt = len(sp) == 1
+    if okt:
+        t = dt.Table(ctx, tg, [(sp[0], (None, OBJ))])
+        rs = t.stmt_nodes(lambda a: isinstance(a, ast.Raise))
+        rt = t.stmt_nodes(lambda a: isinstance(a, ast.Return))
+        okt = len(rs) == 1 and len(rt) == 1 and \
+            t.inputs_at(rs[0]) == {(None,)} and \
+            t.inputs_at(rt[0]) == {(OBJ,)} and \
+            norm(rt[0].ast.value) == sp[0] and \
+            "self.wf_ex.params.get('task_name')" in norm(
+                U.canon_expr(tg.node, defs[sp[0]]), 300)
+    rule.check(okt, ctx.construct(tg, extra='target from the execution '
+                                  'parameters, unknown refused'),
+               'the target task is not the spec named by the execution\'s '
+               'task_name parameter / an unknown name is not refused',
+               ctx.loc(tg))
+    return 3
+
+
 def cache_rule(ctx, r8):
     """The execution cache is (re)loaded for the spec whose inbound tasks
     are looked up in it."""
@@ -422,6 +519,7 @@ def run(ctx):
     r6 = ctx.rule('R6', 'reverse controller only emits satisfied, not yet '
                   'existing tasks the target depends on', 'GD')
     reverse_rules(ctx, r6)
+    reverse_graph(ctx, r6)
 
     # ---- R8 the execution cache covers what is looked up -----------------------
     r8 = ctx.rule('R8', 'the task-execution cache is loaded for the spec '
